@@ -260,6 +260,17 @@ CHECKS["C15"] = {
     "level_text": "all histories of copy / assign / mutate / destroy up to the stated depth, before and after the built-in workspace exists, with default and user maps",
 }
 
+CHECKS["C16"] = {
+    "engine": "E1 lattice explorer + exhaustive initialisation histories",
+    "jobs": lambda tier: [job("C16.cpp", "C16")],
+    "rule": "unit = (order, DIM in {1,2}, N in {1,2,3}): for EVERY scalar input field (start time, each duration, each waypoint coordinate, each component of the six boundary vectors) x {NaN,+inf,-inf}, 7 duration values on both sides of 1 ms (nextbelow, exact, nextabove, 0, -1, denormal, 0.00099999), 7 size/ordering faults, and all pairs of faults, through both overloads on a fresh optimizer: return value = isValid() = bool(opt) = reference predicate (which knows which boundary fields the order uses), message present iff invalid, checkValidity(&msg) agrees with the predicate on the STORED problem and msg empty iff valid; plus ALL sequences of length <= 3 over 14 initialisations (2 valid problems, 5 invalid kinds, both overloads) on one object; PPolyND: breakpoint counts {0,1,2,5} x coefficient counts {0,1,4,ORDER+1} x row count off by {-1,0,+1} x {constructor, update after a valid state} for 5 instantiations: isInitialized / getNumSegments()==0 / recovery, at(i) throws exactly for i outside [0,n) over {INT_MIN,-2,-1,0..n-1,n,n+1,INT_MAX}",
+    "bounds": {"quick": "3 orders x DIM {1,2} x N {1,2,3}: all single faults + all pairs of a reduced fault list, both overloads; 14 + 196 + 2744 histories per (order, DIM)", "thorough": "same (the space is enumerated completely in both tiers)"},
+    "thresholds": {"verdicts": "exact"},
+    "assumptions": ["built without -ffast-math (under the suite's flags finiteness checks are unreliable)", "the model keeps the stored problem separately from the verdict: a failed time-point call with an empty vector sets the flag and message but leaves the stored problem (and a later checkValidity()) untouched"],
+    "technique": "bounded exhaustive enumeration of fault placements (every field x every non-finite value, threshold-adjacent durations, size faults, all pairs) and of all initialisation sequences to depth 3 on the real code; oracle = validity predicate R4",
+    "level_text": "every placement of a non-finite value in every input field and every pair of faults is tried for every order (which decides which boundary fields matter)",
+}
+
 NOT_APPLICABLE = {}
 
 ENGINES = [
